@@ -124,6 +124,9 @@ def check_imputer(storage, feature_names, cats, nums, rows_seen, spec, observed)
         return {'output': float(sum(v for v in x.values()))}
     imp = TreeImputer(model, storage_object=storage, use_storage=spec['use_storage'], direct_predict_numeric=spec['direct'])
     x = rows_seen[spec['row'] % len(rows_seen)]
+    if spec.get('synthetic'):
+        # a point composed feature-wise from different observed rows: it may be routed to a leaf that has no data point yet
+        x = {f: rows_seen[(spec['row'] * (i + 3) + 7 * i) % len(rows_seen)][f] for i, f in enumerate(feature_names)}
     x_before = dict(x)
     sub = [feature_names[i] for i in spec['subset'] if i < len(feature_names)]
     subset = {'list': list, 'tuple': tuple, 'set': set}[spec['subset_type']](sub)
@@ -214,9 +217,12 @@ def cases(draw, tmax):
     n_sw = draw(st.integers(1, 4))
     switches = sorted(draw(st.lists(st.integers(20, T - 10), min_size=n_sw, max_size=n_sw, unique=True)))
     checks = []
-    for _ in range(draw(st.integers(2, 6))):
-        checks.append({'at': draw(st.integers(5, T)), 'use_storage': draw(st.booleans()), 'direct': draw(st.booleans()),
-                       'row': draw(st.integers(0, 10 ** 4)), 'subset': draw(st.lists(st.integers(0, 3), unique=True, max_size=4)),
+    # checkpoints cluster right after the concept switches (that is when leaves are young and may still be empty)
+    ats = [min(T, sw + off) for sw in switches for off in (1, 2, 3, 5, 8, 13, 21)] + [draw(st.integers(5, T)) for _ in range(6)]
+    for at in ats:
+        checks.append({'at': at, 'use_storage': draw(st.sampled_from([True, True, False])), 'direct': draw(st.booleans()),
+                       'row': draw(st.integers(0, 10 ** 4)), 'synthetic': draw(st.booleans()),
+                       'subset': draw(st.lists(st.integers(0, 3), unique=True, max_size=4)),
                        'subset_type': draw(st.sampled_from(['list', 'set', 'tuple'])), 'n_samples': draw(st.integers(1, 3))})
     return {'T': T, 'n_cat': rev(1, 2), 'n_num': rev(1, 2), 'switches': switches, 'stream_seed': draw(st.integers(0, 10 ** 6)),
             'max_depth': rev(1, 5), 'grace': draw(st.sampled_from([5, 2, 10, 30])), 'length': draw(st.integers(1, 5)),
